@@ -823,6 +823,8 @@ class IkeSa(object):
             my_proposal = (ipsec_conf.proposal.copy_without_dh_transforms()
                            if request.exchange_type == Message.Exchange.IKE_AUTH else ipsec_conf.proposal)
             chosen_child_proposal = self._select_best_sa_proposal(my_proposal, request_payload_sa)
+            if len(chosen_child_proposal.spi) != 4:
+                raise NoProposalChosen('The SPI of a CHILD_SA proposal must have 4 octets')
 
             keyseed = request_payload_nonce.nonce + response_payload_nonce.nonce
             # if KE exchange is required
@@ -975,7 +977,7 @@ class IkeSa(object):
                        if response.exchange_type == Message.Exchange.IKE_AUTH else self.creating_child_sa.proposal)
         chosen_child_proposal = response_payload_sa.proposals[0]
         intersection = my_proposal.intersection(chosen_child_proposal)
-        if intersection is None or intersection != chosen_child_proposal:
+        if intersection is None or intersection != chosen_child_proposal or len(chosen_child_proposal.spi) != 4:
             raise NoProposalChosen('Responder did not choose a valid proposal')
 
         # generate CHILD key material
